@@ -615,7 +615,88 @@ def run_corr(ctx, op, cases):
 
 # ------------------------------------------------------------------------------------------------
 
+def behaviour_cases(ctx, n):
+    """End to end: the parameters written after `;` (and the global ones they override) must govern the *search* that is carried out, also
+    when cutadapt collects the adapters into its index (default mode). Anchored 5' adapters with their own `e=` / `indels` / `noindels`;
+    every reported match (info file) is checked against the documented meaning of the specification of the adapter it names."""
+    import clirun
+    rng = ctx.rng
+
+    def edit(a, b):
+        prev = list(range(len(b) + 1))
+        for i, x in enumerate(a, 1):
+            cur = [i]
+            for j, y in enumerate(b, 1):
+                cur.append(min(prev[j] + 1, cur[j - 1] + 1, prev[j - 1] + (x != y)))
+            prev = cur
+        return prev[-1]
+    for _ in range(n):
+        k = rng.randint(2, 3)
+        g_e = rng.choice([None, "0.1", "0.2"])
+        g_noindels = rng.random() < 0.4
+        ads, argv = [], []
+        for i in range(k):
+            seq = "".join(rng.choice("ACGT") for _ in range(rng.randint(8, 12)))
+            e = rng.choice([None, "0", "0.1", "0.2", "1", "2"])
+            fl = rng.choice([None, "indels", "noindels"])
+            spec = f"a{i}=^{seq}" + (f";e={e}" if e else "") + (f";{fl}" if fl else "")
+            rate = float(e if e is not None else (g_e or "0.1"))
+            if rate >= 1:
+                rate = rate / len(seq)
+            indels = (fl == "indels") if fl else not g_noindels
+            ads.append(dict(name=f"a{i}", seq=seq, k=int(rate * len(seq)), indels=indels, spec=spec))
+            argv += ["-g", spec]
+        if g_e:
+            argv += ["-e", g_e]
+        if g_noindels:
+            argv.append("--no-indels")
+        reads = []
+        for j in range(8):
+            a = rng.choice(ads)
+            t = list(a["seq"])
+            for _e in range(rng.choice([0, 1, 1, 2])):
+                p_ = rng.randrange(len(t))
+                y = rng.random()
+                if y < 0.4:
+                    t[p_] = rng.choice("ACGT")
+                elif y < 0.7:
+                    del t[p_]
+                else:
+                    t.insert(p_, rng.choice("ACGT"))
+                if not t:
+                    t = ["A"]
+            s_ = "".join(t) + "".join(rng.choice("ACGT") for _ in range(rng.randint(0, 15)))
+            reads.append((f"r{j}", s_, "I" * len(s_)))
+        res = clirun.run_cli(argv + ["--info-file", "{dir}/info.txt", "-o", "{dir}/o.fastq", "{dir}/in.fastq"], {"in.fastq": clirun.fastq(reads)},
+                             want_json=False)
+        ctx.evaluations += 1
+        if res.status != 0:
+            ctx.failures.append(Failure("C18/behaviour-run-failed", "cutadapt failed on valid specifications", dict(argv=argv), res.stderr[-300:], 0))
+            continue
+        by = {a["name"]: a for a in ads}
+        for line in clirun.text_of(res.files["info.txt"]).splitlines():
+            f = line.split("\t")
+            if f[1] == "-1":
+                continue
+            a = by[f[7]]
+            errors, matched = int(f[1]), f[5]
+            ctx.count("behaviour:match-checked")
+            if errors > 0:
+                ctx.nontriv(("behav", a["spec"], matched))
+            bad = None
+            if errors > a["k"]:
+                bad = f"{errors} errors reported, the specification allows {a['k']}"
+            elif not a["indels"] and (len(matched) != len(a["seq"]) or sum(x != y for x, y in zip(matched.upper(), a["seq"])) != errors):
+                bad = "the specification forbids indels, but the removed prefix is not a same-length copy with that many mismatches"
+            elif a["indels"] and edit(matched.upper(), a["seq"]) != errors:
+                bad = "reported errors differ from the edit distance to the adapter"
+            if bad:
+                ctx.failures.append(Failure("C18/search-ignores-specification", "the search carried out for an adapter does not obey the parameters of its "
+                                            "specification: " + bad, dict(argv=argv, read=f[0], adapter=a["spec"]), dict(errors=errors, matched=matched), None))
+
+
 def run(ctx):
+    behaviour_cases(ctx, ctx.scale(60, 1500))
     rng = ctx.rng
     impl = Impl()
     try:
